@@ -932,6 +932,41 @@ Proof.
   eapply Inv_same; [exact I|reflexivity|cbn; lia].
 Qed.
 
+Lemma ptrs3_wp s own ownd w h a rc n0 :
+  Inv own ownd [] w -> hget (base s) h = Some a -> heap w a = Some (CItem rc n0) ->
+  wp (ptrs3 s h) w (fun r w' => r = (s, OutVals (ptrs_of n0)) /\ Inv own ownd [] w' /\ w' = w_log (AccR a) w).
+Proof.
+  intros I Hh E. unfold ptrs3. rewrite Hh. apply wp_bind. eapply wp_eq; [apply rd_item_spec; exact E|].
+  apply wp_ret. cbn [snd]. split; [reflexivity|]. split; [|reflexivity].
+  eapply Inv_same; [exact I|reflexivity|cbn; lia].
+Qed.
+
+(* cbor_set_allocs while nothing is alive: the world is untouched *)
+Lemma live_count_zero w : wf w -> (forall b, heap w b = None) -> live_count w = 0.
+Proof.
+  intros _ H. unfold live_count. generalize (next w). intros n. induction n using N.peano_ind; [reflexivity|].
+  rewrite N.recursion_succ; [|reflexivity|intros ? ? -> ? ? ->; reflexivity]. rewrite IHn, H. reflexivity.
+Qed.
+Lemma set_allocs_eq s w : wf w -> (forall b, heap w b = None) -> set_allocs s w = Ret (s, Out OutUnit) w.
+Proof. intros W H. unfold set_allocs. rewrite (live_count_zero w W H). reflexivity. Qed.
+
+(* the two calls kept outside [op3]: the pointer getters are a plain read (client state and accounting
+   unchanged; what is returned is the node's storage block and contents); cbor_set_allocs, while nothing
+   obtained from the allocator is alive, returns and changes nothing *)
+Theorem ptrs3_step s own ownd w h a :
+  Inv own ownd [] w -> hget (base s) h = Some a -> 0 < own a ->
+  exists rc n0, heap w a = Some (CItem rc n0) /\
+    ptrs3 s h w = Ret (s, OutVals (ptrs_of n0)) (w_log (AccR a) w) /\ Inv own ownd [] (w_log (AccR a) w).
+Proof.
+  intros I Hh O. destruct (Inv_owned_item _ _ _ _ I O) as (rc & n0 & E & _). exists rc, n0. split; [exact E|].
+  destruct (ptrs3_wp s own ownd w h a rc n0 I Hh E) as (r & w' & R & -> & I' & ->). auto.
+Qed.
+
+Theorem set_allocs_step s own ownd w :
+  Inv own ownd [] w -> (forall b, heap w b = None) ->
+  set_allocs s w = Ret (s, Out OutUnit) w.
+Proof. intros I H. apply set_allocs_eq; [eapply Inv_wf; exact I|exact H]. Qed.
+
 (* ------------------------------------------------------------------------------------------ *)
 (* 3. [caps] is kept by every call of the layer (no side condition)                            *)
 (* ------------------------------------------------------------------------------------------ *)
@@ -1970,6 +2005,12 @@ Proof.
   apply readonly_bind; [apply readonly_rd_item|]. intros c. apply readonly_ret.
 Qed.
 
+Theorem ptrs3_readonly s h : readonly (ptrs3 s h).
+Proof.
+  unfold ptrs3. destruct (hget (base s) h) as [a|]; [|apply readonly_ret].
+  apply readonly_bind; [apply readonly_rd_item|]. intros c. apply readonly_ret.
+Qed.
+
 Theorem vals3_readonly s h : readonly (vals3 s h).
 Proof.
   unfold vals3. destruct (hget (base s) h) as [a|]; [|apply readonly_ret].
@@ -1995,6 +2036,8 @@ Theorem preds3_no_writes : forall s h w r w', preds3 s h w = Ret r w' -> no_writ
 Proof. intros s h. apply readonly_no_writes, preds3_readonly. Qed.
 Theorem vals3_no_writes : forall s h w r w', vals3 s h w = Ret r w' -> no_write_rel w w'.
 Proof. intros s h. apply readonly_no_writes, vals3_readonly. Qed.
+Theorem ptrs3_no_writes : forall s h w r w', ptrs3 s h w = Ret r w' -> no_write_rel w w'.
+Proof. intros s h. apply readonly_no_writes, ptrs3_readonly. Qed.
 
 (* as calls of [step3]: for every allocator oracle and nesting limit *)
 Theorem C18_no_writes3 : forall refuse L s o w r w',
@@ -2234,5 +2277,9 @@ Print Assumptions vals3_readonly.
 Print Assumptions serialize_typed_no_writes.
 Print Assumptions preds3_no_writes.
 Print Assumptions vals3_no_writes.
+Print Assumptions ptrs3_no_writes.
+Print Assumptions ptrs3_readonly.
+Print Assumptions ptrs3_step.
+Print Assumptions set_allocs_step.
 Print Assumptions C18_no_writes3.
 Print Assumptions ex3_rules3.
